@@ -71,10 +71,10 @@ CHECKS = {
         "technique": "Kani/CBMC bounded model checking of verbatim slices of the segment iterator index arithmetic",
     },
     "C04": {
-        "text": "KERNEL claim (the commit-matching loop; the file-reader twin written with polonius macros, the stream filter and Database::read_transaction are outside): bounded model checking of the verbatim "
-                "SegmentBlock::read_committed_events over a mocked read_record serving every log of 3..5 records the writer plus crashes can leave on disk (commits preceded by their event_count events, flagged single events, "
+        "text": "KERNEL claim (the commit-matching loop in both of its copies; the stream filter and Database::read_transaction are outside): bounded model checking of the verbatim "
+                "SegmentBlock::read_committed_events and of BucketSegmentReader::read_committed_events (polonius macros desugared textually) over a mocked read_record serving every log of 3..5 records the writer plus crashes can leave on disk (commits preceded by their event_count events, flagged single events, "
                 "orphaned events of uncommitted attempts anywhere, transaction ids reused by a retry) and every start offset: a Single result is a flagged event at the start offset; a Transaction result contains only events that "
-                "belong to THAT commit - contiguous, never an orphan, never another transaction's event.",
+                "belong to THAT commit - contiguous, never an orphan, never another transaction's event; a 'nothing here, continue at next' answer never steps over the first record of a committed transaction.",
         "note": TB + "record decoding (seglog parse + bincode) mocked; SmallVec replaced by an array-backed stand-in (<= 4 events per transaction); the reachable-log grammar is an assumption of the harness "
                 "(its crash part is confirmed by the native reproducer replay-cluster c04 on the real reader/writer and database).",
         "technique": "Kani/CBMC bounded model checking of the verbatim commit-matching function over symbolic reachable logs",
